@@ -75,6 +75,14 @@ class Prop(BaseProp):
             os.chmod(shim, 0o755)
             env = dict(os.environ, HOME=home, XDG_CONFIG_DIRS=os.path.join(home, "nox"))
             env.pop("XDG_CONFIG_HOME", None)
+            env.pop("CMINXDIR", None)
+            if idx // 11 % 3 == 1:
+                # the person who runs cmake has a per-user CMinx configuration: the executable started by cminx_gen_rst() reads it
+                # like the one started from the command line
+                fsrun.write_yaml(os.path.join(home, ".config", "cminx", "config.yaml"),
+                                 {"rst": {"file_extensions_in_titles": True, "headers": ["=", "-", "~"]},
+                                  "input": {"include_undocumented_function": False}})
+                res.count("runs_with_a_per_user_configuration_file")
             if kind == "template":
                 tpl = open(os.path.join(repo_root(), "cmake", "templates", "cminx-config.cmake.in")).read()
                 cmdir = os.path.join(repo_root(), "cmake")
@@ -122,6 +130,9 @@ class Prop(BaseProp):
             if kind == "nested-broken":
                 # a syntax error in a directory that is NOT the last one walked: valid modules follow in later directories
                 tree.files["k_broken_first.cmake"] = "function(never_closed\n"
+                if rng.random() < 0.5:
+                    for k_ in range(rng.choice([17, 33, 40, 70])):          # scale: the directory holds tens of modules
+                        tree.files[f"n_more_{k_:03d}.cmake"] = cmake_text(f"n_more_{k_:03d}.cmake")
                 tree.dirs.add("zzz_last")
                 tree.files["zzz_last/fine.cmake"] = cmake_text("zzz_last/fine.cmake")
             # (the directory the input lives in may carry characters that are special in glob patterns: a path is a path)
